@@ -16,6 +16,8 @@ Proof.
 Qed.
 
 Theorem fn_obl_sound_parts (parts : list (list fn_obl)) : fparts_ok parts ->
-  forall o, In o (concat parts) -> forall v : list (list bool), widths_of v = fo_widths o ->
-  run BoolAlg (run BoolAlg v (fo_prog o)) (fo_post o) = run BoolAlg v (fo_spec o).
+  forall o, In o (concat parts) -> fn_meets_std o.
 Proof. intros H. exact (fn_obl_sound (concat parts) (fparts_ok_concat parts H)). Qed.
+
+Theorem table_sound_parts parts reqs : fparts_ok parts -> covers (concat parts) reqs = true -> table_correct (concat parts) reqs.
+Proof. intros H C. exact (table_sound (concat parts) reqs (fparts_ok_concat parts H) C). Qed.
